@@ -16,7 +16,7 @@ var props = map[string]*propCfg{
 	"C09": {
 		ID: "C09", Level: "exploration", QuickSecs: 60, ThoroughSecs: 900,
 		Lanes: []lane{{Variant: "", Share: 1}},
-		Rule:  "one evaluation = one workflow composed from 2-6 independently chosen job groups (each closed under needs; half mined as job blocks from /repo/testdata/{examples,ok,err} with yaml.v3, half from the hand-written fragment library incl. well-formed local actions and reusable workflows) in a random textual interleaving, linted once under a seeded iteration order at every instrumented map-range site (in particular the job visiting order), plus the canonical solo run of each group as reference, plus (half of the evaluations) a step-insertion check on one job; distinct = distinct (composed text, installed map-order modes); non-trivial = >= 2 jobs and at least one map-range site iterated >= 2 keys in a non-identity order",
+		Rule:  "one evaluation = one workflow composed from 2-6 independently chosen job groups (each closed under needs; half mined as job blocks from /repo/testdata/{examples,ok,err} with yaml.v3, half from the hand-written fragment library incl. well-formed local actions and reusable workflows) in a random textual interleaving, linted once under a seeded iteration order at every instrumented map-range site (in particular the job visiting order), plus the canonical solo run of each group as reference, plus step-level checks on one job (insert an id-less step, delete an id-less step, swap two adjacent id-less steps; each in half of the evaluations); distinct = distinct (composed text, installed map-order modes); non-trivial = >= 2 jobs and at least one map-range site iterated >= 2 keys in a non-identity order",
 		Assumptions: []string{
 			"reference model: the job group linted alone with the same header and the jobs it needs (canonical schedule); diagnostics are compared per job as multisets of (relative line, column, kind, message) with positions echoed in messages shifted by the same offset",
 			"job groups never reference defective or missing local actions / reusable workflows: 'callee defects are reported once per run' (C10) is specified behaviour that necessarily lands on whichever job is visited first",
